@@ -7,7 +7,7 @@ CONSTANTS
   Interps = {"onsite_direct", "onsite_spline"}
   Evals = {"rbf", "kernel", "spline", "linear", "two", "spinrbf"}
   Modes = {"SEP", "NPOL", "POL"}
-  Mixes = {"pure", "xmix", "xmix_c", "libxc2"}
+  Mixes = {"pure", "xmix", "xmix_c", "libxc2", "xc_extra", "conly", "mgga_mix"}
   MaxCalls = 1
 INVARIANT GridsMatchIntegrator
 INVARIANT FeatureVectorComplete
